@@ -25,6 +25,7 @@ fn tmpdir(cfg: &Cfg, tag: &str) -> PathBuf {
 /// Values of a root chosen so that file lengths spread over residues mod 64.
 fn sweep_values(rc: &RootCtx, seed: u64, n: usize) -> Vec<Val> {
     let mut out = values(rc, seed, n);
+    out.extend(big_values(rc));
     if matches!(rc.ty, Ty::Str | Ty::BoxStr) {
         for l in 0..130 {
             out.push(Val::Str("x".repeat(l)));
